@@ -4,7 +4,7 @@ D  TLC exhaustive on the static configurations spec/MC_Vlan_*.cfg (one plain net
    nodes incl. a duplicate address, promiscuous / spoofing variants, two sends, every interleaving with deliveries, one
    membership change and one change of a sent PDU; the same with a raising receiver; lossy networks with the draws around
    the 1 % / 50 % / 100 % thresholds; two IP networks (10.0.0.0/25, 10.0.0.128/25) + IPRouter with two nodes each and a
-   spare node with another broadcast address; three IP networks) against the 28 step formulas and 3 state formulas of
+   spare node with another broadcast address; three IP networks) against the 29 step formulas and 3 state formulas of
    Vlan.tla.  Each named deviation (SendByReference, BcastExcludesByAddress, RaiseCutsDelivery) must make TLC find a
    violation (vacuity check, five configurations).
 R  TLC dumps the labelled state graph of further configurations, generated with the deviation flags OBSERVED on the tree
@@ -42,7 +42,7 @@ STEP_MONITORS = ["UnicastToAddressed", "UnicastNotToOthers", "PromiscuousSeesOnc
                  "BroadcastNotToSender", "OnlyMembersReceive", "DroppedReachesNobody", "ReceptionOnlyOnDelivery",
                  "HistoryOnlyGrows", "CopyIsFrame", "OnlySentFramesArrive", "SourceIsSender", "PayloadIsWhatWasSent",
                  "AtMostOnce", "PerSenderFifo", "UnboundRefused", "SpoofRefusedUnlessEnabled", "RefusedSendsNothing",
-                 "AcceptedSendInFlight", "OnlySendsAndForwardsEmit", "FlightKeepsPayload", "OldestFirst",
+                 "AcceptedSendInFlight", "OnlySendsAndForwardsEmit", "FlightKeepsPayload", "OldestFirst", "FlightWellFormed",
                  "WireLogsEveryFrame", "NoLoop", "ForwardToContainingNet", "AddOutcome", "RemoveOutcome",
                  "MembershipOnlyByAddRemove"]
 FINAL_MONITORS = ["QuietAtEnd", "RoutedExactlyOnce", "EverySendOnItsOwnWire"]
@@ -351,6 +351,19 @@ class Rig:
     def do(self, op):
         return getattr(self, op[0])(*op[1:])
 
+    def applicable(self, op):
+        """can the operation be carried out on the objects as they are?  (a walk of the model's graph stops where the
+        implementation has left the graph: that step has been recorded and is judged)"""
+        if op[0] == "deliver":
+            return self.pending() > 0
+        if op[0] == "add":
+            return self.net_of(op[1]) == 0
+        if op[0] == "remove":
+            return self.net_of(op[1]) != 0
+        if op[0] == "mutate":
+            return op[1] in self.sent_pdu
+        return True
+
     def pending(self):
         return len(vt.tm.tasks)
 
@@ -361,6 +374,8 @@ def run_ops(topo, style, ops, drain=True):
     evs = []
     try:
         for i, op in enumerate(ops):
+            if not rig.applicable(tuple(op)):
+                break
             for ev in rig.do(tuple(op)):
                 ev["opi"] = i
                 evs.append(ev)
@@ -551,14 +566,33 @@ def replay_graph(chk, name, topos, flags, style="int", **kw):
     return out
 
 
+def library_raised(err):
+    """an exception that escaped from the code under test into the harness (the calls whose refusal is legitimate are
+    wrapped): where it was raised, or None when the harness itself raised"""
+    import traceback
+    from common import SRC
+    tb = traceback.extract_tb(err.__traceback__)
+    if tb and os.path.abspath(tb[-1].filename).startswith(os.path.abspath(SRC)):
+        return {"exception": repr(err), "raised_in": "%s:%s" % (os.path.basename(tb[-1].filename), tb[-1].name),
+                "traceback": "".join(traceback.format_exception(type(err), err, err.__traceback__))[-1500:]}
+    return None
+
+
 def exec_walks(job):
     tid0, walks = job
     out = []
     for topo, style, ops in walks:
         if HANGS[0] >= 3:
             break
-        evs, hang = run_ops(topo, style, ops)
-        out.append({"tid": tid0 + len(out), "topo": topo, "evs": evs, "hang": hang,
+        crash = None
+        try:
+            evs, hang = run_ops(topo, style, ops)
+        except Exception as err:
+            crash = library_raised(err)
+            if crash is None:
+                raise
+            evs, hang = [], False
+        out.append({"tid": tid0 + len(out), "topo": topo, "evs": evs, "hang": hang, "crash": crash,
                     "replay": {"kind": "history", "topo": topo, "style": style, "ops": ops}})
     return out
 
@@ -638,7 +672,14 @@ def t_history(job):
     rng = random.Random(tseed)
     topo = random_topo(rng)
     style = rng.choice(["int", "addr"])
-    rig = Rig(topo, style)
+    try:
+        rig = Rig(topo, style)
+    except Exception as err:
+        crash = library_raised(err)
+        if crash is None:
+            raise
+        return {"tid": tid, "topo": topo, "evs": [], "hang": False, "crash": crash,
+                "replay": {"kind": "history", "topo": topo, "style": style, "ops": []}}
     N, M = len(topo["node"]), len(topo["net"])
     endpoints = [n for n in range(1, N + 1) if n not in topo["router"]]
     addrs = [tuple(nc["addr"]) for nc in topo["node"]]
@@ -718,7 +759,7 @@ def t_history(job):
         HANGS[0] += 1
         vt.reset(0.0)
         hang = True
-    return {"tid": tid, "topo": topo, "evs": evs, "hang": hang,
+    return {"tid": tid, "topo": topo, "evs": evs, "hang": hang, "crash": None,
             "replay": {"kind": "history", "topo": topo, "style": style, "ops": ops}}
 
 
@@ -843,7 +884,7 @@ def count_monitors(chk, t):
     tp = t["topo"]
     for l, e in enumerate(t["evs"], 1):
         op = e["op"]
-        for m in ("HistoryOnlyGrows", "MembershipOnlyByAddRemove", "WireLogsEveryFrame", "ReceptionOnlyOnDelivery"):
+        for m in ("HistoryOnlyGrows", "MembershipOnlyByAddRemove", "WireLogsEveryFrame", "ReceptionOnlyOnDelivery", "FlightWellFormed"):
             chk.monitor(m)
         if op == "send":
             chk.monitor("UnboundRefused", 1 if e["net"] == 0 else 0)
@@ -969,6 +1010,8 @@ def judge(chk, traces, label, seen, flags, selftest=False):
             chk.violation("Terminates", {"case": "hang"}, {"what": "no return within 10 s", "after_events": len(t["evs"]),
                                                            "last": [{k: e[k] for k in ("op", "n", "net", "id")} for e in t["evs"][-3:]]},
                           t["replay"])
+        if t.get("crash"):
+            chk.violation("LibraryRaised", {"case": "exception_escaped", "raised_in": t["crash"]["raised_in"]}, t["crash"], t["replay"])
     runnable = [t for t in traces if t["evs"]]
     if not runnable:
         return
@@ -1182,7 +1225,7 @@ def replay(path):
     extra_findings(chk)
     flags = probe_flags()
     evs, hang = run_ops(rp["topo"], rp.get("style", "int"), [tuple(o) for o in rp["ops"]])
-    t = {"tid": 1, "topo": rp["topo"], "evs": evs, "hang": hang, "replay": rp}
+    t = {"tid": 1, "topo": rp["topo"], "evs": evs, "hang": hang, "crash": None, "replay": rp}
     for e in evs[-6:]:
         print(json.dumps({k: e[k] for k in ("op", "n", "net", "dst", "src", "pl", "res", "draw", "id", "got", "rin", "flight") if k in e})[:1500])
     judge(chk, [t], "replay", set(), flags)
